@@ -63,6 +63,9 @@ def gen_thread(rng, t, behav, max_ops, force_raise=False):
 
   def child(depth=0):
     r = rng.random()
+    if r < 0.10:
+      # a function / class / enum member as a plain value, shared by all threads
+      return {'sym': rng.choice(['n0', 'N2', 'Color.RED', 'Color.BLUE', 'NT'])}
     if r < 0.55 or depth >= 1:
       return token()
     if r < 0.70:
